@@ -25,6 +25,10 @@ AddViols(viols, names, line) ==
 
 Report(tid, consumed, viols) == PrintT(<<"@R", tid, consumed, viols>>)
 
+(* vacuity guard: a monitor also reports which antecedents of its clauses held at least once in the trace ("witnesses");
+   the harness adds them up over the corpus and writes them into the evidence file *)
+ReportW(tid, consumed, viols, seen) == PrintT(<<"@R", tid, consumed, viols>>) /\ PrintT(<<"@W", tid, seen>>)
+
 Has(rec, key) == key \in DOMAIN rec
 Get(rec, key, default) == IF key \in DOMAIN rec THEN rec[key] ELSE default
 =============================================================================
